@@ -66,7 +66,7 @@ def run_tlc(module: str, cfg: str, *, workers: int | str = "auto", extra_files: 
     meta = os.path.join(sd, "meta")
     if workers == "auto" and os.environ.get("VERIF_TLC_WORKERS"):
         workers = os.environ["VERIF_TLC_WORKERS"]
-    cmd = ["java", "-XX:+UseParallelGC", "-Xmx" + os.environ.get("VERIF_TLC_XMX", "10g")] + (java_opts or []) + [
+    cmd = ["java", "-XX:+UseParallelGC", "-Xss" + os.environ.get("VERIF_TLC_XSS", "64m"), "-Xmx" + os.environ.get("VERIF_TLC_XMX", "10g")] + (java_opts or []) + [
         "-cp", JAR + ":" + DEPS, "tlc2.TLC", "-workers", str(workers), "-metadir", meta,
         "-noGenerateSpecTE", "-config", cfg]
     if dump:
